@@ -34,6 +34,11 @@ def all_windows(m):
 
 def cases(tier):
     q = tier == 'quick'
+    # the eigenvalues do not depend on the units of the basis functions: monomials with prefactor 1e-6 in both modes (transformed
+    # data of magnitude 1e-12) against the same monomials with prefactor one, HOSVD threshold 1e-12 (a RELATIVE cut) and 1e-6
+    for m_ in (12, 16):
+        for thr_ in (1e-12, 1e-6):
+            yield {'units': True, 'm': m_, 'thr': thr_, 'd': 2, 'ws': [], 'iset': []}
     # a singular value of Psi_x only 1.4 times above the routine's internal relative cut of 1e-3, next to three equal dominant
     # ones (indicator features with disjoint supports, so the spectrum is known in closed form)
     for per in (2, 3):
@@ -100,7 +105,32 @@ def cases(tier):
                                 yield {'d': d, 'm': m, 'ws': [list(w) for w in ws_i], 'iset': iset, 'var': 'hocur', 'dt': 'int'}
 
 
+def run_units(case, seed):
+    import scikit_tt.data_driven.transform as tdt
+    import scikit_tt.data_driven.tedmd as tedmd
+    r = R(case)
+    rng = rng_for(case, seed)
+    m = case['m']
+    x = rng.uniform(-1.5, 1.5, size=(2, m + 1))
+    xi, yi = np.arange(m), np.arange(1, m + 1)
+    r.nontrivial = True
+    out = {}
+    for pf in (1.0, 1e-6):
+        basis = [[tdt.Monomial(i, e, prefactor=pf if e > 0 else pf) for e in range(3)] for i in range(2)]
+        with r.op('amuset_hosvd:units:call'):
+            with quiet():
+                ev, et = tedmd.amuset_hosvd(x, xi, yi, basis, threshold=case['thr'])
+            out[pf] = np.asarray(ev)
+    if 1.0 in out and 1e-6 in out:
+        r.true('amuset_hosvd:units:eigenvalue-count', out[1.0].shape == out[1e-6].shape, '%d eigenvalues with prefactor 1, %d with prefactor 1e-6' % (len(out[1.0]), len(out[1e-6])))
+        if out[1.0].shape == out[1e-6].shape:
+            r.close('amuset_hosvd:units:eigenvalues', out[1e-6], out[1.0], 1e-7, 'basis functions rescaled by 1e-6 per mode')
+    return r
+
+
 def run_case(case, seed):
+    if case.get('units'):
+        return run_units(case, seed)
     from scikit_tt.data_driven import tedmd
     r = R(case)
     rng = rng_for({k: case[k] for k in ('d', 'm', 'ws')}, seed)
